@@ -5,3 +5,5 @@ go 1.23
 replace github.com/krotik/ecal => /repo
 
 require github.com/krotik/ecal v0.0.0
+
+require github.com/krotik/common v1.4.4 // indirect
